@@ -135,6 +135,18 @@ CHECKS = {
             "Tolerance sqrt(L)(2 pi Fd t eps 40 + 1e-12): met by any implementation forming k*Ts in double, violated by a 1e-10 relative drift; if the phases cannot be identified from sample 0 the absolute model degrades to 'not attached' and the twin decides.",
             "reference model (integer position + closed-form sum) in lock-step with request histories, plus black-box twin",
             "DESIGN.md §5 C14"),
+    "C19": ("exploration",
+            "Independent kernels (crossing-number point-in-polygon and distance-to-boundary on the shape's own vertices; disc for the "
+            "circle) decide: is_point_inside_shape for hexagon, square/non-square rectangle, circle, Cell, Cell3Sec (non-convex), "
+            "CellSquare and CellWrap at positions/radii over several decades and rotations in [-720,720] (uniform, multiples of 30/45/90 "
+            "and +-1e-9), with query points inside, outside and at every edge +- delta down to 1e-9 radius; random users (containment "
+            "and minimum distance, refusal of outside users); border points (on the boundary, exact direction, linear in the ratio, "
+            "border users); clusters of sizes 1,3,4,7,13,19 (simple, 3-sector) and square grids 1,4,9,16 under rotation (congruent "
+            "cells, centroid, neighbour spacing 2 apothems / one side, disjoint interiors by kernel and by the library's own test, "
+            "user-to-cell distance matrices); and the circle/rectangle point processes.",
+            "Points within 1e-9 radius of the boundary are tallied as tie zone; np.random is seeded per case; uniformity of random placement is not checked (not part of the property).",
+            "independent geometric kernels as oracle over generated shapes, rotations and boundary-ladder queries",
+            "DESIGN.md §5 C19"),
 }
 
 PENDING_REASON = "check not built yet in this session (design in DESIGN.md §5); will be claimed once its monitors run clean on the unchanged tree"
